@@ -283,14 +283,16 @@ mod enigma_line {
 }
 
 fn write_class(class_key: &ObjClassNameSlice, class: &ClassNowodeMapping<2>, w: &mut impl Write, indent: usize) -> Result<()> {
+	// a class at the root of a file has no enclosing `CLASS` line to take its outer name from
+	let is_root = indent == 0;
 	let indent = "\t".repeat(indent);
 
 	let [_, dst] = class.info.names.names();
 	// get to only the part after $ if it exists
-	let src = class_key.get_inner_class_name().unwrap_or(class_key);
+	let src = if is_root { class_key } else { class_key.get_inner_class_name().unwrap_or(class_key) };
 	// the dst name also stores only the inner class name
 	let dst = dst.as_ref()
-		.map(|dst| dst.get_inner_class_name().unwrap_or(dst));
+		.map(|dst| if is_root { dst } else { dst.get_inner_class_name().unwrap_or(dst) });
 
 	write!(w, "{indent}CLASS {src}")?;
 	if let Some(dst) = dst {
